@@ -42,6 +42,7 @@ type Run struct {
 	Prop  string
 	Seed  uint64
 	Tier  string
+	Variant int // fault position for fault-enumeration properties
 	Sim   *vsim.Sim
 	W     *vsimenv.World
 	Ch    *vsim.Choices
@@ -65,6 +66,8 @@ type Run struct {
 	// FirstOnly: report only the first discrepancy of the run (state-image
 	// properties: later ones are consequences of the diverged state)
 	FirstOnly bool
+	faultCtx  string
+	faultedMod map[uint64]bool
 	Taints    map[uint64]string // UP SEID -> first known-finding trigger applied to the session
 	returned   map[int]*bool
 }
@@ -135,7 +138,7 @@ func NewRun(prop string, seed uint64, tier string, ch *vsim.Choices) *Run {
 	w.Ifaces["core"] = N6Addr + "/24"
 	w.Net.UnixOpen["/tmp/notifycp"] = true
 	w.Net.UnixOpen["/tmp/pfcpport"] = true
-	r := &Run{Prop: prop, Seed: seed, Tier: tier, Sim: s, W: w, Ch: ch, vseen: map[string]bool{},
+	r := &Run{Prop: prop, Seed: seed, Tier: tier, Variant: curVariant, Sim: s, W: w, Ch: ch, vseen: map[string]bool{},
 		Probes: map[string]int{}, Faults: map[string]int{}, agents: map[int]*pfcpiface.PFCPIface{}, stateHashes: map[uint64]bool{}}
 	r.stopWD = s.StartWatchdog(60*time.Second, func() string { return fmt.Sprintf("prop=%s seed=%d", prop, seed) })
 	return r
@@ -372,3 +375,19 @@ func msgName(m message.Message) string {
 }
 
 func (r *Run) until(d time.Duration) int64 { return r.Sim.NowNS() + int64(d) }
+
+// FaultCtx names the first request of the run that an injected datapath fault
+// hit ("no-fault" when none did): a signature component, so that a defect
+// that needs no fault is never hidden behind a finding that needs one.
+func (r *Run) FaultCtx() string {
+	if r.faultCtx == "" {
+		return "no-fault"
+	}
+	return r.faultCtx
+}
+
+func (r *Run) SetFaultCtx(c string) {
+	if r.faultCtx == "" {
+		r.faultCtx = c
+	}
+}
